@@ -85,7 +85,58 @@ pub fn predictor_histories(depth: usize) -> Vec<Vec<PStep>> {
     all
 }
 
+/// C08e: LARGE histories of one sentence object: after one or two very long lines (70 000 characters; 40 000 then
+/// 50 000 so that amortised growth crosses 64 Ki elements; a 30 000-token tagged line through update_tokenized)
+/// were predicted (and tagged) with it, every short text must give exactly what a fresh sentence gives. What survives
+/// `update_*` between lines is buffer capacity, and only a long line makes it large. Models with non-zero bias.
+pub fn check_large_history(model: usize, history: usize) -> Option<(String, String)> {
+    use crate::models::Entry;
+    use vaporetto::{Predictor, Sentence};
+    let es = [Entry::Char("a".into()), Entry::Dict("ab".into()), Entry::Type(vec![2, 3]), Entry::Char("あa".into())];
+    let (bias, tags) = [(1200, false), (-700, true), (5, true), (-32768, false)][model % 4];
+    let b = crate::c01::mk(&es, 2, 2, bias, (model % 2) as u8, tags);
+    let pred = Predictor::new(b.spec.to_model().unwrap_or_else(|e| machinery_error(&e)), tags).unwrap_or_else(|e| machinery_error(&e.to_string()));
+    let long = |n: usize, unit: &str| -> String { unit.chars().cycle().take(n).collect() };
+    let r = guard(|| {
+        let mut out = vec![];
+        // the history is rebuilt before EVERY short text: the first call after the long line is the one that
+        // meets the large buffers (a later one may already see them shrunk or replaced)
+        for t in ["ab", "a", "あa", "abあab", "ba1あa", "aaaaaaaaaaaaaaaaaaaaaaaaaaaaaaaaaaaaaaaaaaaaaaaaaaaaaaaaaaaaaaaaaaaaaab"] {
+        let mut s = Sentence::default();
+        match history {
+            0 => { s.update_raw(long(70_000, "a")).unwrap(); pred.predict(&mut s); }
+            1 => { for n in [40_000, 50_000] { s.update_raw(long(n, "abあ")).unwrap(); pred.predict(&mut s); if tags { s.fill_tags(); } } }
+            2 => { s.update_tokenized(&"a/X/p あ/Y ".repeat(15_000).trim_end().to_string()).unwrap(); pred.predict(&mut s); if tags { s.fill_tags(); } }
+            _ => { s.update_raw(long(140_000, "あab1")).unwrap(); pred.predict(&mut s); if tags { s.fill_tags(); } s.update_raw(long(66_000, "b")).unwrap(); pred.predict(&mut s); }
+        }
+        {
+            s.update_raw(t.to_string()).unwrap();
+            pred.predict(&mut s);
+            if tags { s.fill_tags(); }
+            let reused = crate::obs::observe(&s, false);
+            let mut f = Sentence::from_raw(t.to_string()).unwrap();
+            pred.predict(&mut f);
+            if tags { f.fill_tags(); }
+            let fresh = crate::obs::observe(&f, false);
+            if reused != fresh {
+                out.push(format!("text {t:?}: reused sentence gives scores {:?} boundaries {:?} tags {:?}, a fresh one {:?} {:?} {:?}", reused.scores, reused.boundaries, reused.tags, fresh.scores, fresh.boundaries, fresh.tags));
+            }
+        }
+        }
+        out
+    });
+    match r {
+        Err(p) => Some(("large-history-panic".into(), p)),
+        Ok(v) if !v.is_empty() => Some(("large-history-differs".into(), v[0].clone())),
+        Ok(_) => None,
+    }
+}
+
 pub fn replay(case: &Value) -> Option<(String, String)> {
+    if case["mode"] == "large-history" {
+        let (m, h) = (case["model"].as_u64()? as usize, case["history"].as_u64()? as usize);
+        return check_large_history(m, h).map(|(k, w)| (format!("{k} model={m} history={h}"), w));
+    }
     if case["mode"] == "predictor-history" {
         let h: Vec<PStep> = serde_json::from_value(case["history"].clone()).ok()?;
         return check_predictor_history(&h).map(|(k, w)| (format!("{k} history={h:?}"), w));
@@ -135,6 +186,21 @@ pub fn run(tier: Tier) -> ! {
                 chk.violation(format!("{k} history={h:?}"), what, json!({"mode": "predictor-history", "history": h}));
             }
         });
+    }
+    // C08e: large histories of one sentence object (buffer capacity left behind by very long lines)
+    {
+        let mut n = 0u64;
+        for m in 0..4usize {
+            for h in 0..4usize {
+                n += 1;
+                chk.eval(6);
+                chk.nontrivial(6);
+                if let Some((k, what)) = check_large_history(m, h) {
+                    chk.violation(format!("{k} model={m} history={h}"), what, json!({"mode": "large-history", "model": m, "history": h}));
+                }
+            }
+        }
+        chk.set("large_histories", json!(n));
     }
     // C08c: loom exploration INSIDE calls, on a copy of the library whose atomics / Mutex / RwLock /
     // Condvar paths were rewritten to loom's (tools/loomprep.sh). Exhaustive up to loom's
